@@ -1,4 +1,79 @@
-(* C31 — Piecewise-linear functions interpolate within rounding. (theorems added below as proved) *)
+(* C31 — Piecewise-linear functions interpolate within rounding.
+   Only theorem statements, each closed by [exact <lemma>], Examples, and Print Assumptions.
+   Model: model/PieceFunc.v (uint64 operations wrapped mod 2^64 explicitly; None = panic).
+   Specification: spec/PieceFuncSpec.v (valid_dots; get_ok = ends + exact at dots + neighbour
+   bounds, unbounded arithmetic).  All theorems hold for EVERY argument x (in particular every
+   uint64) and every dot list. *)
 From Coq Require Import NArith List.
-From LV Require Import lib.WordArith model.PieceFunc spec.PieceFuncSpec.
+From LV Require Import lib.WordArith model.PieceFunc spec.PieceFuncSpec proofs.PieceFuncProofs.
+Import ListNotations.
 Local Open Scope N_scope.
+
+(* NewFunc panics exactly on the invalid lists (fewer than two dots, X not strictly
+   increasing, a coordinate above maxVal) *)
+Theorem C31_newfunc_accepts_iff_valid : forall dots, new_func dots = None <-> valid_dots dots = true.
+Proof. exact new_func_valid. Qed.
+Theorem C31_invalid_rejected : forall dots, valid_dots dots = false -> exists e, new_func dots = Some e.
+Proof. exact new_func_total. Qed.
+
+(* on a valid list Get never panics and its result satisfies the whole specification *)
+Theorem C31_get_meets_spec : forall dots x, valid_dots dots = true ->
+  exists y, get dots x = Some y /\ get_ok dots x y = true.
+Proof. exact get_spec. Qed.
+
+(* the clauses of the specification, spelled out *)
+Theorem C31_before_first : forall dots x fx fy rest, valid_dots dots = true ->
+  dots = (fx, fy) :: rest -> x < fx -> get dots x = Some fy.
+Proof. exact get_before. Qed.
+Theorem C31_after_last : forall dots x d lx ly, valid_dots dots = true ->
+  last dots d = (lx, ly) -> lx < x -> get dots x = Some ly.
+Proof. exact get_after. Qed.
+Theorem C31_exact_at_dots : forall dots X Y, valid_dots dots = true -> In (X, Y) dots -> get dots X = Some Y.
+Proof. exact get_at_dot. Qed.
+(* between two neighbouring dots: result < 2^64 (no overflow), <= the larger Y, >= the smaller Y - 1,
+   and | y - exact | <= |dY|/10^6 + 2 where exact = (y0 (dx - a) + y1 a)/dx, a = x - x0, dx = x1 - x0
+   (the inequality is multiplied by dx * 10^6 to stay in integers) *)
+Theorem C31_between_neighbours : forall dots pre x0 y0 x1 y1 post x, valid_dots dots = true ->
+  dots = pre ++ (x0, y0) :: (x1, y1) :: post -> x0 <= x -> x <= x1 ->
+  exists y, get dots x = Some y /\ y < two64n /\
+    N.min y0 y1 <= y + 1 /\ y <= N.max y0 y1 /\
+    absdiff (y * (x1 - x0) * unit6) ((y0 * ((x1 - x0) - (x - x0)) + y1 * (x - x0)) * unit6)
+      <= (absdiff y1 y0 + 2 * unit6) * (x1 - x0).
+Proof. exact get_between. Qed.
+(* no intermediate uint64 operation wraps: inside a piece every wrapped operation of the code
+   equals the unbounded one, and the value is the unbounded formula *)
+Theorem C31_no_intermediate_wrap : forall x0 y0 x1 y1 x,
+  x0 <= x -> x <= x1 -> x0 < x1 -> x1 <= max_val -> y0 <= max_val -> y1 <= max_val ->
+  let r := ratio_of x0 x1 x in
+  sub64 x x0 = x - x0 /\ sub64 x1 x0 = x1 - x0 /\ mul64 (x - x0) decimal_unit = (x - x0) * 1000000 /\
+  r <= 1000000 /\ sub64 decimal_unit r = 1000000 - r /\
+  mul64 y0 (1000000 - r) = y0 * (1000000 - r) /\ mul64 y1 r = y1 * r /\
+  interp (x0, y0) (x1, y1) x = Some (y0 * (1000000 - r) / 1000000 + y1 * r / 1000000).
+Proof. exact piece_no_wrap. Qed.
+
+(* --- non-vacuity: a valid list with non-round Ys, extreme coordinates, rounding visible --- *)
+Definition ex_dots : list (N * N) := [(0, 7); (3, 1000001); (10, 5); (18446744073708, 18446744073708)].
+Example C31_ex_valid : valid_dots ex_dots = true /\ new_func ex_dots = None.
+Proof. split; vm_compute; reflexivity. Qed.
+Example C31_ex_values :
+  get ex_dots 1 = Some 333337 /\ get ex_dots 2 = Some 666668 /\ get ex_dots 3 = Some 1000001 /\
+  get ex_dots 4 = Some 857143 /\ get ex_dots 10 = Some 5 /\
+  get ex_dots 18446744073709551615 = Some 18446744073708 /\ get ex_dots 18446744073707 = Some 18446725626963.
+Proof. repeat split; vm_compute; reflexivity. Qed.
+Example C31_ex_invalid :
+  new_func [(0, 1)] = Some TooFewDots /\ new_func [(1, 1); (1, 2)] = Some NonMonotonicX /\
+  new_func [(0, 18446744073709); (1, 1)] = Some TooLargeY /\ new_func [(0, 1); (18446744073709, 1)] = Some TooLargeX /\
+  valid_dots [(0, 1); (18446744073709, 1)] = false.
+Proof. repeat split; vm_compute; reflexivity. Qed.
+(* maxVal is tight for the no-wrap claim: one more and Y * 10^6 no longer fits *)
+Example C31_ex_maxval_tight : (max_val + 1) * 1000000 + 1000000 > max_u64 /\ max_val * 1000000 + 1000000 <= max_u64.
+Proof. split; vm_compute; [reflexivity|discriminate]. Qed.
+
+Print Assumptions C31_newfunc_accepts_iff_valid.
+Print Assumptions C31_invalid_rejected.
+Print Assumptions C31_get_meets_spec.
+Print Assumptions C31_before_first.
+Print Assumptions C31_after_last.
+Print Assumptions C31_exact_at_dots.
+Print Assumptions C31_between_neighbours.
+Print Assumptions C31_no_intermediate_wrap.
